@@ -494,6 +494,13 @@ impl World {
     /// The recurring parent refresh had its turn: every CA syncs with every
     /// parent (top-down, two rounds), pumping in between.
     pub fn settle(&self) -> Result<Vec<String>, String> {
+        self.settle_observed(&mut |_, _| {})
+    }
+
+    /// Like `settle`; `observe` is called after every CA had its turn (its
+    /// synchronisations with its parents and the tasks they trigger), i.e.
+    /// at every instant at which the repository is quiescent in between.
+    pub fn settle_observed(&self, observe: &mut dyn FnMut(&World, &str)) -> Result<Vec<String>, String> {
         let mut tasks = self.pump()?;
         for _round in 0..2 {
             let cm = self.krill.ca_manager();
@@ -527,6 +534,7 @@ impl World {
                     let _ = self.sync_parent(name, p);
                 }
                 tasks.extend(self.pump()?);
+                observe(self, name);
             }
         }
         Ok(tasks)
